@@ -66,7 +66,8 @@ BySrc(r, s) == {f.eid : f \in {g \in Pels(r) : PD!Contains(g.ref, s)}}
 \* lines must not be listed; one whose reference code occurs nowhere in the file must be listed; a code that
 \* is only part of a longer line is "in the file" under one reading and not under another - not demanded.
 MustExclude(r, codes) == {f.eid : f \in {g \in Pels(r) : g.ref \in SeqRange(codes)}}
-MustList(r, codes) == {f.eid : f \in {g \in Pels(r) : \A k \in 1..Len(codes) : ~PD!Contains(codes[k], g.ref)}}
+\* (a PEL that HAS no reference code - no SRC section, or a blank one - is neither demanded nor forbidden)
+MustList(r, codes) == {f.eid : f \in {g \in Pels(r) : g.ref # <<>> /\ \A k \in 1..Len(codes) : ~PD!Contains(codes[k], g.ref)}}
 SrcExcludeOK(r, codes) == /\ MustList(r, codes) \subseteq SeqRange(r.result)
                           /\ SeqRange(r.result) \cap MustExclude(r, codes) = {}
                           /\ SeqRange(r.result) \subseteq {f.eid : f \in Pels(r)}
